@@ -26,14 +26,47 @@ WORLDS = [
     [(2, 500.5, [100.0, 200.2, 300.3]), (1, 20.9, [7.7])],
     [(3, 77.0, [1.0, 2.0]), (10, 88.8, [3.0, 4.0])],
     [(7, 60.0, [10.0, 20.0, 30.0])],
+    [(2, 90.5, [(10.0, 1), (20.5, 2), (30.0, 2)]), (3, 50.0, [(5.5, 2)])],
 ]
 
 
-def check_read(mols, order, ids, entry, acc):
-    rows = cmaptext.rows(mols, extra_column=True)
-    txt = (cmaptext.HEADER % ('\tExtra', '\tfloat')) + ''.join(rows[i] for i in order)
+NOTE_HEADER = ("# CMAP File Version:\t0.1\n# Label Channels:\t2\n"
+               "#h CMapId\tContigLength\tNumSites\tSiteID\tNote\tLabelChannel\tPosition\tStdDev\tCoverage\tOccurrence\n"
+               "#f int\tfloat\tint\tint\tstring\tint\tfloat\tfloat\tfloat\tfloat\n")
+
+
+def split(label):
+    """a label is a coordinate (channel 1) or a (coordinate, channel) pair"""
+    return (label[0], label[1]) if isinstance(label, (tuple, list)) else (label, 1)
+
+
+def note_rows(mols):
+    """layout 2: an annotation column BEFORE LabelChannel/Position whose cell is empty in every second row, labels on two channels"""
+    out = []
+    k = 0
+    for mid, length, pos in mols:
+        n = len(pos)
+        for i, lab in enumerate(pos):
+            p, ch = split(lab)
+            out.append("%d\t%.1f\t%d\t%d\t%s\t%d\t%.1f\t12.5\t1.0\t1.0\n" % (mid, length, n, i + 1, 'x' if k % 2 else '', ch, p))
+            k += 1
+        out.append("%d\t%.1f\t%d\t%d\t%s\t0\t%.1f\t0.0\t1.0\t1.0\n" % (mid, length, n, n + 1, 'end' if k % 2 else '', length))
+        k += 1
+    return out
+
+
+def check_read(mols, order, ids, entry, acc, layout=1):
+    orig = [[m, l, [list(x) if isinstance(x, (tuple, list)) else x for x in p]] for m, l, p in mols]
+    plain = [(m, l, [split(x)[0] for x in p]) for m, l, p in mols]
+    if layout == 1:
+        rows = cmaptext.rows(plain, extra_column=True)
+        txt = (cmaptext.HEADER % ('\tExtra', '\tfloat')) + ''.join(rows[i] for i in order)
+    else:
+        rows = note_rows(mols)
+        txt = NOTE_HEADER + ''.join(rows[i] for i in order)
+    mols = plain
     found = []
-    case = dict(kind='read', molecules=[[m[0], m[1], list(m[2])] for m in mols], row_order=list(order), ids=ids, entry=entry)
+    case = dict(kind='read', molecules=orig, row_order=list(order), ids=ids, entry=entry, layout=layout)
     try:
         rd = CmapReader()
         got = (rd.readQueries if entry == 'queries' else rd.readReferences)(io.StringIO(txt), ids)
@@ -50,7 +83,7 @@ def check_read(mols, order, ids, entry, acc):
         acc.transitions += 1
         acc.state(tuple(tuple(map(str, x)) for x in (g or [])))
         if list(order) != sorted(order) or ids or any(not m[2] for m in mols):
-            acc.nontriv((tuple(m[0] for m in mols), tuple(order), tuple(ids or ()), entry))
+            acc.nontriv((tuple(m[0] for m in mols), tuple(order), tuple(ids or ()), entry, layout))
         for f in found:
             acc.viol(f[0], case, f[1], f[2], f[3])
         acc.sample(case)
@@ -105,7 +138,7 @@ class Reader(core.Layer):
         self.name, self.optional, self.maxrows = name, optional, maxrows
         self.items = []
         for wi, mols in enumerate(WORLDS):
-            n = len(cmaptext.rows(mols))
+            n = sum(len(p) + 1 for m, l, p in mols)
             if n <= maxrows:
                 perms = list(itertools.permutations(range(n)))
             else:
@@ -135,13 +168,14 @@ class Reader(core.Layer):
         for order in perms:
             for ids in id_filters(mols):
                 for entry in ('queries', 'references'):
-                    acc.seq += 1
-                    check_read(mols, order, ids, entry, acc)
+                    for layout in (1, 2):
+                        acc.seq += 1
+                        check_read(mols, order, ids, entry, acc, layout)
 
     def replay(self, case):
         if case['kind'] == 'trim':
             return check_trim(case['positions'], case['length'], None)
-        return check_read([tuple(m) for m in case['molecules']], case['row_order'], case['ids'], case['entry'], None)
+        return check_read([tuple(m) for m in case['molecules']], case['row_order'], case['ids'], case['entry'], None, case.get('layout', 1))
 
 
 def layers(tier, seed):
